@@ -466,6 +466,10 @@ M("c01-generator-batch-drain", "C01", "_context.py", "C01.R1", "generator helper
   ("        while self._teardown_callbacks:\n            callback, pass_exception = self._teardown_callbacks.pop()\n",
    "        for callback, pass_exception in self._drain_teardown_callbacks():\n"),
   ("    async def _run_teardown_callbacks(\n", "    def _drain_teardown_callbacks(self):\n        while self._teardown_callbacks:\n            callbacks, self._teardown_callbacks = self._teardown_callbacks, []\n            yield from reversed(callbacks)\n\n    async def _run_teardown_callbacks(\n"))
+T("c01-twin-call-and-await-helper", "C01", "_context.py", "call + await-if-awaitable moved into a module-level helper that inspects the RESULT",
+  ("                if pass_exception:\n                    retval = cast(Callable[[Optional[BaseException]], Any], callback)(\n                        original_exception\n                    )\n                else:\n                    retval = cast(Callable[[], Any], callback)()\n\n                if isawaitable(retval):\n                    await retval\n",
+   "                if pass_exception:\n                    await _call_and_await(callback, original_exception)\n                else:\n                    await _call_and_await(callback)\n"),
+  ("class Context:\n", "async def _call_and_await(func: Any, *args: Any) -> Any:\n    retval = func(*args)\n    if isawaitable(retval):\n        retval = await retval\n\n    return retval\n\n\nclass Context:\n"))
 T("c01-twin-rename", "C01", "_context.py", "rename locals of the runner",
   ("original_exception", "block_exception"), count=None)
 
